@@ -361,9 +361,13 @@ def run(ctx):
     comparator_tables(ctx)
     no_cached_derived(ctx)
     dim_dependent(ctx)
+    from .. import flagfwd
+
+    n = flagfwd.run(ctx, "R14.6")
+    ctx.floor("R14.6", "call sites with an unbound configuration flag available in the caller", n, 3)
     return (
         "Decides the structural clauses of C14: (R14.1) on every feasible path of every parameter writer (8 setters, __init__, set_arg_bounds, set_dim, __setattr__) the last "
         "parameter store is followed by check_arg_bounds(); (R14.2) parameter fields are stored only from their normalisers; (R14.3) check_arg_in_bounds accepts a value exactly on the "
         "documented interval for each of the four bound types, evaluated over all 5 order types, and every violation code raises; (R14.4) derived quantities are computed, not cached; "
-        "(R14.5) dimension-dependent state is refreshed by set_dim. NOT decided: equality with a directly constructed model as a whole (values)."
+        "(R14.5) dimension-dependent state is refreshed by set_dim; (R14.6) no call drops a configuration flag (latlon/temporal/geo_scale/mesh_type/value_type) the caller has in scope. NOT decided: equality with a directly constructed model as a whole (values)."
     )
